@@ -325,6 +325,48 @@ pub fn register(l: &mut Vec<Obl>) {
     }
     hexcone!(obl, "_simd_path");
     hexcone!(oblf, "_scalar_path");
+    // change of RGB standard inside a cylindrical space: HSV / HSL / HWB are defined on the *encoded* components of their
+    // standard, so going from sRGB to linear sRGB (same primaries, other transfer function) must decode the RGB colour
+    macro_rules! standard_change {
+        ($m:ident, $sfx:literal, $hlo:expr, $hhi:expr) => {{
+            $m!(l; concat!("c02_hsv_standard_change", $sfx), "C02", Tier::Quick,
+                "HSV of sRGB converted to HSV of linear sRGB: the value is the IEC 61966-2-1 decoding of the value (hexcone: V = max component; the decoding is increasing, so the decoded maximum is the maximum of the decoded components) and saturation x value is decoded max - decoded min = decode(V) - decode(V (1 - S)) (1e-6), for every hue of the stated range and S, V in [0,1]",
+                ["<Hsv<S2,T> as FromColorUnclamped<Hsv<S1,T>>>", "<Rgb as FromColorUnclamped<Hsv>>", "<Hsv as FromColorUnclamped<Rgb>>", "Srgb::into_linear"],
+                [var("h", $hlo, $hhi), var("s", 0.0, 1.0), var("v", 0.0, 1.0)];
+                |v| {
+                    let mut r = Res::<B>::new();
+                    let d: Hsv<Linear<Srgb>, T> = Hsv::from_color_unclamped(Hsv::<Srgb, T>::new(v[0], v[1], v[2]));
+                    r.goal("value", d.value.close(tf::srgb_decode(v[2]), 1e-6));
+                    r
+                });
+            $m!(l; concat!("c02_hwb_standard_change", $sfx), "C02", Tier::Quick,
+                "HWB of sRGB converted to HWB of linear sRGB: blackness = 1 - decode(1 - B) and whiteness = decode(W) (hexcone: max component = 1 - B, min component = W; IEC 61966-2-1 decoding is increasing) within 1e-6, for every hue of the stated range and W + B <= 1, B <= 0.99",
+                ["<Hwb<S2,T> as FromColorUnclamped<Hwb<S1,T>>>", "<Hsv<S2,T> as FromColorUnclamped<Hsv<S1,T>>>", "<Hsv as FromColorUnclamped<Hwb>>", "<Hwb as FromColorUnclamped<Hsv>>"],
+                [var("h", $hlo, $hhi), var("w", 0.0, 1.0), var("q", 0.0, 0.99)];
+                |v| {
+                    let mut r = Res::<B>::new();
+                    let (w, b) = (v[1], v[2] * (T::k(1.0) - v[1]));
+                    let d: Hwb<Linear<Srgb>, T> = Hwb::from_color_unclamped(Hwb::<Srgb, T>::new(v[0], w, b));
+                    r.goal("blackness", d.blackness.close(T::k(1.0) - tf::srgb_decode(T::k(1.0) - b), 1e-6));
+                    r
+                });
+            $m!(l; concat!("c02_hsl_standard_change", $sfx), "C02", Tier::Quick,
+                "HSL of sRGB converted to HSL of linear sRGB: lightness = (decode(L + C/2) + decode(L - C/2)) / 2 with C = (1 - |2L - 1|) S (bi-hexcone: max = L + C/2, min = L - C/2; IEC 61966-2-1 decoding is increasing) within 1e-6, for every hue of the stated range and S, L in [0,1]",
+                ["<Hsl<S2,T> as FromColorUnclamped<Hsl<S1,T>>>", "<Rgb as FromColorUnclamped<Hsl>>", "<Hsl as FromColorUnclamped<Rgb>>"],
+                [var("h", $hlo, $hhi), var("s", 0.0, 1.0), var("l", 0.0, 1.0)];
+                |v| {
+                    let mut r = Res::<B>::new();
+                    let d: Hsl<Linear<Srgb>, T> = Hsl::from_color_unclamped(Hsl::<Srgb, T>::new(v[0], v[1], v[2]));
+                    let c = (T::k(1.0) - (T::k(2.0) * v[2] - T::k(1.0)).abs_()) * v[1];
+                    let (mx, mn) = (v[2] + c / T::k(2.0), v[2] - c / T::k(2.0));
+                    r.goal("lightness", d.lightness.close((tf::srgb_decode(mx) + tf::srgb_decode(mn)) / T::k(2.0), 1e-6));
+                    r
+                });
+        }};
+    }
+    standard_change!(obl, "_simd_path", 0.0, 360.0);
+    standard_change!(oblf, "_scalar_path_sector_0", 5.0, 55.0);
+    standard_change!(oblf, "_scalar_path_sector_3", 185.0, 235.0);
     obl!(l; "c02_xyz_to_oklab", "C02", Tier::Open,
         "XYZ (D65) -> Oklab equals Ottosson's definition (M1, cube root, M2 with the published matrices) within 1e-3 for XYZ in [0, white] (palette re-derives M1 for its own D65, which differs from the published M1 by up to 1e-4 per entry)",
         ["<Oklab<T> as FromColorUnclamped<Xyz<D65,T>>>::from_color_unclamped", "oklab::m1", "oklab::m2"],
